@@ -81,6 +81,7 @@ def execute_case(pid, case, timeout=600):
 
 def fork_call(fn, args=(), timeout=600):
     """fn(*args) in a forked child; the result comes back pickled"""
+    scratch_root()      # fixed before forking, so that children share it
     rfd, wfd = os.pipe()
     sys.stdout.flush()
     sys.stderr.flush()
